@@ -38,6 +38,12 @@ OBSERVABLE = {  # which from_json slots of the real classes can be observed on t
     "TransformedParameter": ["x"],
     "Distribution": ["x", "parameters"],
     "JointDistributionModel": ["distributions"],
+    "Taxon": [],
+    "Taxa": ["taxa"],
+    "UnRootedTreeModel": ["taxa", "branch_lengths"],
+    "TimeTreeModel": ["taxa", "internal_heights"],
+    "ReparameterizedTimeTreeModel": ["taxa", "shifts", "root_height", "ratios"],
+    "FlexibleTimeTreeModel": ["taxa", "internal_heights"],
 }
 
 _SETUP = {}
@@ -55,6 +61,9 @@ def setup(classes):
     import torchtree.core.utils as U
     import torchtree.distributions.distributions  # noqa: F401
     import torchtree.distributions.joint_distribution  # noqa: F401
+    import torchtree.evolution.taxa  # noqa: F401
+    import torchtree.evolution.tree_model  # noqa: F401
+    import torchtree.evolution.tree_model_flexible  # noqa: F401
     from torchtree.core.serializable import JSONSerializable
 
     made = {}
@@ -221,6 +230,18 @@ def py_kids(o):
         return [("x", xs), ("parameters", [p for p in o.dict_parameters.values() if p.id is not None])]
     if n == "JointDistributionModel":
         return [("distributions", list(o._distributions.models()))]
+    if n == "Taxa":
+        return [("taxa", list(o))]
+    if n == "UnRootedTreeModel":
+        return [("taxa", [o._taxa]), ("branch_lengths", [o._branch_lengths])]
+    if n in ("TimeTreeModel", "FlexibleTimeTreeModel"):
+        return [("taxa", [o._taxa]), ("internal_heights", [o._internal_heights])]
+    if n == "ReparameterizedTimeTreeModel":
+        p = o._internal_heights
+        if type(p).__name__ == "CatParameter" and p.id is None:   # built from ratios and root_height
+            ratios, root_height = list(p._parameter_container.params())[:2]
+            return [("taxa", [o._taxa]), ("shifts", []), ("root_height", [root_height]), ("ratios", [ratios])]
+        return [("taxa", [o._taxa]), ("shifts", [p]), ("root_height", []), ("ratios", [])]
     return []
 
 
@@ -514,6 +535,7 @@ def small_family():
     out.append(([{"id": "t", "type": "VSelf", "pre": "t", "inner": leaf("h")}], ("forward", True, {})))
     out.append(([leaf("t"), {"id": "t", "type": "VSelf", "inner": leaf("h")}], ("dup-small", True, {})))
     out.append(([{"id": "t", "type": "VSelf", "inner": {"id": "m", "type": "VOne", "x": leaf("t")}}], ("dup-small", True, {})))
+    out += tree_family()
     # references: shared, forward, dangling, to the enclosing object
     out.append(([leaf("a"), {"id": "p", "type": "VPair", "a": "a", "b": "a"}], None))
     out.append(([{"id": "p", "type": "VOne", "x": "a"}, leaf("a")], ("forward", True, {})))
@@ -521,6 +543,88 @@ def small_family():
     out.append(([{"id": "p", "type": "VOne", "x": "p"}], ("ref-to-enclosing", True, {})))
     out.append(([{"id": "p", "type": "VPair", "a": leaf("a"), "b": "a"}], None))
     out.append(([{"id": "p", "type": "VRev", "a": leaf("a"), "b": "a"}], ("forward", True, {})))
+    return out
+
+
+def tree_family():
+    """the real tree-model classes with every sub-object inline: the tree's own id re-used at EVERY nested position
+    (Taxa, each Taxon, each parameter, the transform and its child), sibling duplicates, forward references, sharing"""
+    out = []
+    DIFF = c13_gen.DIFF
+
+    def base(ty, cyc=False):
+        names = ["tA", "tB", "tC"]
+        taxons = [{"id": n, "type": "Taxon", "attributes": {"date": 0.0}} for n in names]
+        taxa = {"id": "tx", "type": "Taxa", "taxa": taxons}
+        t = {"id": "T", "type": ty, "newick": "((tA:1,tB:1):1,tC:2);", "taxa": taxa}
+        nested = [("taxa", taxa)] + [("taxon%d" % i, x) for i, x in enumerate(taxons)]
+        par = lambda i, v: {"id": i, "type": "Parameter", "tensor": v}  # noqa: E731
+        if ty == "UnRootedTreeModel":
+            t["branch_lengths"] = par("bl", [0.5, 0.25, 1.0])
+            nested.append(("branch_lengths", t["branch_lengths"]))
+        elif ty == "TimeTreeModel" or (ty == "FlexibleTimeTreeModel" and not cyc):
+            t["internal_heights"] = par("h", [1.0, 2.0])
+            nested.append(("internal_heights", t["internal_heights"]))
+        elif ty == "FlexibleTimeTreeModel":
+            x = par("sh", [1.0, 1.0])
+            t["internal_heights"] = {"id": "h", "type": "TransformedParameter", "transform": DIFF,
+                                     "parameters": {"tree_model": "T"}, "x": x}
+            nested += [("heights-transform", t["internal_heights"]), ("heights-transform.x", x)]
+        elif cyc:   # Reparameterized with shifts
+            t["shifts"] = par("sh", [1.0, 1.0])
+            nested.append(("shifts", t["shifts"]))
+        else:
+            t["root_height"] = par("rh", [2.0])
+            t["ratios"] = par("ra", [0.5])
+            nested += [("root_height", t["root_height"]), ("ratios", t["ratios"])]
+        return t, nested
+
+    def rename(t, lit, new):
+        old = lit["id"]
+        lit["id"] = new
+        if lit.get("type") == "Taxon":
+            t["newick"] = t["newick"].replace(old + ":", new + ":")
+
+    for ty in c13_gen.TREES:
+        for cyc in ((False, True) if ty in ("FlexibleTimeTreeModel", "ReparameterizedTimeTreeModel") else (False,)):
+            t, nested = base(ty, cyc)
+            out.append(([t], None))
+            # the tree's own id at every nested position
+            for k in range(len(nested)):
+                t, nested = base(ty, cyc)
+                rename(t, nested[k][1], "T")
+                out.append(([t], ("dup-tree-id:" + nested[k][0], True, {"class": ty})))
+            # sibling / cousin duplicates among the nested literals
+            for i in range(len(nested)):
+                for j in range(i + 1, len(nested)):
+                    t, nested = base(ty, cyc)
+                    rename(t, nested[j][1], nested[i][1]["id"])
+                    out.append(([t], ("dup-nested:%s=%s" % (nested[j][0], nested[i][0]), True, {"class": ty})))
+            # forward references: the Taxa / a parameter defined only AFTER the tree that refers to it
+            t, nested = base(ty, cyc)
+            taxa = t["taxa"]
+            t["taxa"] = "tx"
+            out.append(([t, taxa], ("forward", True, {"class": ty})))
+            out.append(([copy.deepcopy(taxa), copy.deepcopy(t)], None))
+            t, nested = base(ty, cyc)
+            key = [k for k in ("branch_lengths", "internal_heights", "shifts", "ratios") if k in t][0]
+            lit = t[key]
+            t[key] = lit["id"]
+            out.append(([t, lit], ("forward", True, {"class": ty})))
+            out.append(([copy.deepcopy(lit), copy.deepcopy(t)], None))
+            # a top-level object defined BEFORE the tree with the tree's id
+            t, nested = base(ty, cyc)
+            out.append(([{"id": "T", "type": "VLeaf"}, t], ("dup-small", True, {"class": ty})))
+    # one Taxa shared by two trees
+    t1, _ = base("TimeTreeModel")
+    t2, _ = base("FlexibleTimeTreeModel", True)
+    taxa = t1["taxa"]
+    t1["taxa"] = "tx"
+    t2["taxa"] = "tx"
+    t2["id"] = "T2"
+    t2["internal_heights"]["parameters"]["tree_model"] = "T2"
+    t2["internal_heights"]["id"] = "h2"
+    out.append(([taxa, t1, t2], None))
     return out
 
 
